@@ -87,7 +87,7 @@ Proof. vm_compute. split; reflexivity. Qed.
    is recognised as flanked and stripping returns BODY; a peptide without any dot is never taken for flanked *)
 Theorem C10_flanks_recognised_and_stripped : forall (a b : N) (body : str),
   has_flanks (a :: 46%N :: body ++ [46%N; b]) = true /\ strip_flanks (a :: 46%N :: body ++ [46%N; b]) = body.
-Proof. intros a b body. split; [apply has_flanks_spec | apply strip_flanks_spec]. Qed.
+Proof. exact flanks_recognised_and_stripped. Qed.
 Print Assumptions C10_flanks_recognised_and_stripped.
 
 Theorem C10_unflanked_left_alone : forall s : str, ~ In 46%N s -> has_flanks s = false.
